@@ -22,7 +22,14 @@
       duration is just a large [i_d].  [CarryOver lim] is the variant that gives
       up after [lim] and goes on with the previous reading; the events it
       produces are tagged [false] (no answer was received): they are iterations
-      of the loop, not observations of the state. *)
+      of the loop, not observations of the state.
+
+   [Rearm] and [CarryOver] are hand models of two seeded changes (seeded/C20-7,
+   seeded/C20-8), used for the two refutations of Property.v ONLY; nothing is
+   proved to tie them to a source text.  Not modelled in them: the lifetime of
+   the seed's `rearmRequested` flag beyond the iteration that sets it, and the
+   predicate goroutine the bounded evaluation abandons (it keeps running and
+   its late answer is dropped) — neither is observable in the traces compared. *)
 From Coq Require Import List ZArith Bool.
 From Verif Require Import C20.Model.
 Import ListNotations.
